@@ -632,3 +632,81 @@ def replay_witness(unit_name, case, ob):
     fails = [(n, d) for n, ok, d in _battery() if not ok]
     return {"reproduced": bool(fails), "failed_laws": [f"{n}: {d}" for n, d in fails][:8],
             "note": "battery of the container laws on the real classes (generic 3 bins x 4 patches x 5 samples inputs)"}
+
+
+def _step_battery():
+    """bounded: every slice(start, stop, step) with start/stop in {None, -n-1..n+1} and step in {None, 1, 2, 3, -1, -2, -3} on the real
+    containers (3 bins x 4 patches); the reference is numpy's own selection ``arange(n)[s]``.  A non-empty patch selection must
+    yield exactly the sub-arrays of the selected patches (any step, any direction); a bin selection must either be refused with
+    IndexError/ValueError (a Binning cannot represent non-contiguous or reversed bins) or yield the sub-arrays of the selected
+    bins with a binning of that many bins.  Empty selections may be refused or give empty containers."""
+    import numpy as np
+    from yaw.binning import Binning
+    from yaw.correlation import paircounts as PCr
+    rng = np.random.default_rng(11)
+    nb, N = 3, 4
+    b = Binning(np.array([0.1, 0.2, 0.45, 0.9]), closed="left")
+    A = rng.uniform(1, 9, (nb, N, N))
+    w1, w2 = rng.uniform(1, 9, (nb, N)), rng.uniform(1, 9, (nb, N))
+    x = PCr.PatchedCounts(b, A, auto=False)
+    sw = PCr.PatchedSumWeights(b, w1, w2, auto=False)
+    nc = PCr.NormalisedCounts(x, sw)
+
+    def views(obj):
+        if isinstance(obj, PCr.NormalisedCounts):
+            return obj.counts.counts, obj.sum_weights.sum_weights1, obj.sum_weights.sum_weights2
+        if isinstance(obj, PCr.PatchedCounts):
+            return (obj.counts,)
+        return obj.sum_weights1, obj.sum_weights2
+
+    def expect(obj, axis, idx):
+        out = []
+        for arr in views(obj):
+            if axis == "bin":
+                out.append(arr[idx])
+            elif arr.ndim == 3:
+                out.append(arr[:, idx][:, :, idx])
+            else:
+                out.append(arr[:, idx])
+        return out
+    for axis, n in (("patch", N), ("bin", nb)):
+        ends = [None] + list(range(-n - 1, n + 2))
+        for step in (None, 1, 2, 3, -1, -2, -3):
+            for start in ends:
+                for stop in ends:
+                    s = slice(start, stop, step)
+                    idx = np.arange(n)[s]
+                    for cname, obj in (("PatchedCounts", x), ("PatchedSumWeights", sw), ("NormalisedCounts", nc)):
+                        try:
+                            r = (obj.patches if axis == "patch" else obj.bins)[s]
+                        except (IndexError, ValueError) as ex:
+                            ok = len(idx) == 0 or (axis == "bin" and step not in (None, 1))
+                            yield f"{cname}.{axis}[{start}:{stop}:{step}]", ok, f"refused a valid selection of {len(idx)}: {ex!r}"
+                            continue
+                        except Exception as ex:  # noqa: BLE001
+                            yield f"{cname}.{axis}[{start}:{stop}:{step}]", False, f"unexpected {ex!r}"
+                            continue
+                        got, want = views(r), expect(obj, axis, idx)
+                        ok = all(g.shape == w.shape and np.array_equal(g, w) for g, w in zip(got, want))
+                        if ok and axis == "bin":
+                            # edges are compared for contiguous ascending selections only: for a stepped selection the real
+                            # Binning.__getitem__ keeps the left edges and the last right edge (see DESIGN 14.7), and the statement
+                            # speaks of the sub-arrays
+                            ok = r.num_bins == len(idx) and (len(idx) == 0 or step not in (None, 1) or (
+                                np.array_equal(r.binning.left, b.left[idx]) and np.array_equal(r.binning.right, b.right[idx])))
+                        yield (f"{cname}.{axis}[{start}:{stop}:{step}]", ok,
+                               f"selected {[g.shape for g in got]}, numpy selects {[w.shape for w in want]} (indices {idx.tolist()})")
+
+
+def bounded(opts):
+    import time
+    t0 = time.time()
+    res = list(_step_battery())
+    fails = [(n, d) for n, ok, d in res if not ok]
+    return dict(kind="bounded", bound="all slice(start, stop, step), start/stop in {None, -n-1..n+1}, step in {None, ±1, ±2, ±3}, on "
+                "PatchedCounts / PatchedSumWeights / NormalisedCounts with 3 bins x 4 patches, patch and bin axis; reference numpy arange(n)[s]",
+                evaluations=len(res), distinct_nontrivial=len(res),
+                violations=[dict(id=f"bounded:stepped_slices:{n}", detail=d) for n, d in fails[:6]],
+                samples=[n for n, _, _ in res[:3]], wall_s=round(time.time() - t0, 2),
+                note="real library; stepped slices are outside the symbolic array model (arrays.py: slice with step is Unsupported); "
+                     "labelled bounded, not counted as proved")
